@@ -4,7 +4,7 @@ patch=$1; ids=$2; tier=${3:-quick}
 wt=/tmp/wt/try_$$
 git -C /repo worktree add -q --detach $wt HEAD || exit 9
 cp /repo/pydra/utils/_version.py $wt/pydra/utils/_version.py
-( cd $wt && git apply "$patch" ) || { echo "patch does not apply"; git -C /repo worktree remove --force $wt; exit 9; }
+( cd $wt && { git apply "$patch" 2>/dev/null || patch -p1 -F3 -s < "$patch"; } ) || { echo "patch does not apply"; git -C /repo worktree remove --force $wt; exit 9; }
 cd /verif
 for i in $ids; do
   VT_REPO=$wt VT_NPROC=${VT_NPROC:-10} timeout -s KILL 5400 ./check $i --tier $tier > /tmp/wt/try_$$.log 2>&1; rc=$?
